@@ -883,6 +883,15 @@ fn library() -> Vec<(String, String)> {
 
 fn hand_programs() -> Vec<&'static str> {
     vec![
+        // for-else decided by "was there anything to iterate", not by what the last element is;
+        // loop-local assignments do not leak into a later loop started inside the same outer loop
+        "{% for x in [1, u] %}[{{ loop.index }}/{{ loop.length }}]{% else %}EMPTY{% endfor %}",
+        "{% for x in [u] %}i{% else %}EMPTY{% endfor %}|{% for x in [u, 1] %}i{% else %}EMPTY{% endfor %}|{% for x in [] %}i{% else %}EMPTY{% endfor %}",
+        "{% for k, v in {\"a\": u} %}{{ k }}{% else %}EMPTY{% endfor %}|{% for k, v in {\"a\": 1, \"b\": nil} %}{{ k }}{% else %}EMPTY{% endfor %}",
+        "{% for x in [1, u, 2] %}{% if x is undefined %}{% break %}{% endif %}i{% else %}EMPTY{% endfor %}|{% for x in [nil] %}n{% else %}EMPTY{% endfor %}",
+        "{% for row in [[\"a\", \"x\"], [\"b\", \"c\"]] %}{% for c in row %}{% if c == \"x\" %}{% set hit = true %}{% endif %}{% if hit is defined %}!{% else %}.{% endif %}{% endfor %}|{% endfor %}",
+        "{% for o in [1, 2] %}{% for a in [1] %}{% set s = \"x\" %}{% endfor %}{% for b in [1, 2] %}{{ s }}-{% set s = \"c\" %}{% endfor %}|{% endfor %}",
+        "{% for o in [1, 2] %}{% for a in [1, 2] %}{% set t = a %}{% endfor %}{{ [t for q in [7]] }}{% endfor %}",
         "{{ 1 + 10 * 2 / 5 }} {{ 10 % 3 }} {{ 2 ** 10 }} {{ 7 // 2 }} {{ -7 // 2 }} {{ -7 % 3 }} {{ 7.5 // 2 }} {{ -7.5 % 2 }}",
         "{{ n + m }} {{ n - m }} {{ n * m }} {{ n / m }} {{ n // m }} {{ n % m }} {{ -n }} {{ -m }} {{ -f }}",
         "{{ m + 1 }}",
